@@ -941,6 +941,9 @@ class Interp:
             import operator
             return {"Eq": operator.eq, "NotEq": operator.ne, "Lt": operator.lt, "LtE": operator.le,
                     "Gt": operator.gt, "GtE": operator.ge, "Is": operator.is_, "IsNot": operator.is_not}[op](a, b)
+        if op in ("Eq", "NotEq") and all(isinstance(x, type) or type(x).__module__ == "typing" for x in (a, b)):
+            r = (a == b)                      # declared field types: Python classes and typing aliases (List[int], Optional[int], ...)
+            return r if op == "Eq" else not r
         if (isinstance(a, (SRec, Closure, Opaque, types.FunctionType, type)) or isinstance(b, (SRec, Closure, Opaque, types.FunctionType, type))) \
                 and op in ("Is", "IsNot", "Eq", "NotEq"):
             if a is None or b is None:
@@ -1018,6 +1021,8 @@ class Interp:
             if is_sym(k) and obj.ndim == 1:
                 # lookup table indexed by a symbolic value
                 return self.table_lookup(obj, k, lineno)
+        if type(obj).__module__ == "typing" and not is_sym(idx):
+            return obj[idx]                   # typing.List[int] and friends (declared field types)
         raise Unsupported("subscript on %r with %r" % (obj, idx))
 
     def table_lookup(self, table, k, lineno):
